@@ -19,6 +19,11 @@ Proof. vm_compute. reflexivity. Qed.
 Lemma real_max_depth : max_depth = 255%nat.
 Proof. reflexivity. Qed.
 
+(* every nested decoder call in the generated UnmarshalMsgWithState functions hands the caller's depth
+   state on (list extracted from the msgp_gen.go sources by the translator) *)
+Lemma real_depth_state_threaded : unthreaded_calls = [].
+Proof. reflexivity. Qed.
+
 (* msgp encoder / decoder of the real types *)
 Theorem real_decode_encode : forall id v rest,
   wtb env false (SRef id) v = true -> (need (norm env false (SRef id) v) <= max_depth)%nat ->
